@@ -59,7 +59,8 @@ ASSUMPTIONS = [
   "but must leave the switch behaving, for every later delivery, as one that never had the failure",
   "a buffer id announced by a packet-in names the frame that packet-in showed (its data is a prefix of it, total_len its length), whatever the rest of the action list did afterwards; "
   "a packet-out releasing it carries the in_port the packet-in reported; only buffers of judged deliveries are released",
-  "'other' frames are 802.3/LLC, SNAP, well-formed LLDP and EAPOL-Start/Logoff, RARP, and EtherTypes / IP protocols the packet library does not dissect; "
+  "'other' frames are 802.3/LLC, SNAP (OUI 0 + IPv4/ARP PID with a well-formed packet of that kind, or a PID nothing dissects, or another OUI with opaque bytes), well-formed LLDP and EAPOL-Start/Logoff, RARP, "
+  "and EtherTypes / IP protocols the packet library does not dissect: never random bytes under a type some dissector claims; "
   "IPv6, IGMP, GRE, MPLS and malformed payloads of dissected protocols are left to C14/C15",
 ]
 EXHAUSTIVE_SCOPE = {
@@ -211,7 +212,7 @@ def frame_class(frame):
   d = F.dissect(frame)
   tags = len(d.get("vlan", ()))
   et = d.get("ethertype")
-  if "llc" in d:
+  if "llc" in d and et not in (F.ETH_IP, F.ETH_ARP):
     k = "snap" if "snap" in d else "llc"
   elif et == F.ETH_ARP:
     k = "arp"
@@ -660,13 +661,15 @@ def _run(case, sw, out, nt):
         continue
       ids = sorted(buffers)
       buffer_id = ids[step.get("which", 0) % len(ids)]
-      frame, in_port, buffer_origin = buffers.pop(buffer_id)
+      candidates, in_port, buffer_origin, _si = buffers.pop(buffer_id)
+      frame = candidates[0]
       out.label("mode:buffer_out")
       nt[0] = True
       mode = "packet_out"
     else:
       frame = step["frame"]
       in_port = step["in_port"]
+      candidates = [frame]
     is_packet_out = mode == "packet_out"
     actions = step.get("actions") or []
     problems = F12.validate(frame)
@@ -679,6 +682,8 @@ def _run(case, sw, out, nt):
     out.label("frame:" + fclass, "tags:%d" % ntags)
     if frame[:6] == R.STP_MAC:
       out.label("stp-dst")
+    if "snap" in dis and dis.get("ethertype") in (F.ETH_IP, F.ETH_ARP):
+      out.label("encap:snap-" + ("ipv4" if dis["ethertype"] == F.ETH_IP else "arp"))
     if "tcp" in dis and dis["tcp"]["options"]:
       out.label("tcp-options")
     if "ipv4" in dis and dis["ipv4"]["options"]:
@@ -819,10 +824,12 @@ def _run(case, sw, out, nt):
 
     failures = []
     res0 = None
-    for v in _variants(frame, lists):
-      f0 = frame
+    matches = []
+    # every admitted reading (and, for a released buffer, every frame the packet-in was consistent with) is tried
+    for cand, v in [(c, v) for c in candidates for v in _variants(c, lists)]:
+      f0 = cand
       if v["udp_zero"] == "fill":
-        f0 = R.fill_udp_checksum(frame)        # a datapath may compute the checksum the sender left out
+        f0 = R.fill_udp_checksum(cand)         # a datapath may compute the checksum the sender left out
       if mode == "miss":
         res = R.Result()
         res.events.append(("miss", f0))
@@ -857,16 +864,24 @@ def _run(case, sw, out, nt):
         if m is None:
           m = mk
       if matched is not None:
-        failures = []
-        # remember which frame each announced buffer holds: the one its packet-in showed
+        matches.append(matched)
+      else:
+        failures.append(m)
+    if matches:
+      failures = []
+      # remember which frame each announced buffer holds: the one its packet-in showed.  Where two readings both fit
+      # what was observed (a truncated packet-in does not tell them apart) both frames stay candidates.
+      for matched in matches:
         shown = [(e[1], "action" if e[0] == "ctl" else ("miss" if mode == "miss" else "table-miss"))
                  for e in matched if e[0] in ("ctl", "miss")]
         if len(pktins) >= len(shown):
           for (fr, origin), pi in zip(shown, pktins):
             if pi["buffer_id"] != NO_BUFFER:
-              buffers[pi["buffer_id"]] = (fr, in_port, origin)
-        break
-      failures.append(m)
+              old = buffers.get(pi["buffer_id"])
+              frames_ = old[0] if old is not None and old[3] == si else []
+              if fr not in frames_:
+                frames_ = frames_ + [fr]
+              buffers[pi["buffer_id"]] = (frames_, in_port, origin, si)
     res = res0
     if res.table_lookups:
       out.label("table-lookup")
@@ -1138,7 +1153,18 @@ def frame_strategy(draw):
   if o == 0:
     return F.build_8023(dst, src, body, dsap=draw(st.sampled_from([0x42, 0xe0, 0xfe])), ssap=0x42, vlan=vlan)
   if o == 1:
-    return F.build_8023(dst, src, body, snap=(draw(st.sampled_from([bytes(3), b"\x00\x00\x0c"])), draw(st.sampled_from([0x0800, 0x2000, 0x0806]))), vlan=vlan)
+    # SNAP: under OUI 0 the PID is an EtherType and the body is what that EtherType announces (or an EtherType nothing
+    # dissects); under another OUI the body is opaque
+    w = draw(st.integers(0, 5))
+    if w <= 1:
+      return F.build_8023(dst, src, draw(_ipv4_packet(draw(st.sampled_from(["tcp", "udp", "icmp", "other"])))), snap=(bytes(3), F.ETH_IP), vlan=vlan)
+    if w == 2:
+      arp = F.build_arp(draw(st.sampled_from([1, 2])), draw(_MAC), draw(_U32), draw(_MAC), draw(_U32))
+      return F.build_8023(dst, src, arp, snap=(bytes(3), F.ETH_ARP), vlan=vlan)
+    if w == 3:
+      return F.build_8023(dst, src, body, snap=(bytes(3), draw(st.sampled_from([0x809b, 0x8137, 0x1234]))), vlan=vlan)
+    return F.build_8023(dst, src, body, snap=(draw(st.sampled_from([b"\x00\x00\x0c", b"\x00\x80\xc2", b"\x08\x00\x07"])),
+                                               draw(st.sampled_from([0x2000, 0x2004, 0x0800, 0x0806, 0x000b]))), vlan=vlan)
   if o == 2:
     # a well-formed LLDPDU: chassis id, port id, ttl, (system name), end
     def tlv(t, v):
